@@ -15,6 +15,14 @@ fn main() {
         let code = engine::child::child_main(&args[1..], &|p, s| props::lookup_case(p, s));
         std::process::exit(code);
     }
+    if args.first().map(|s| s.as_str()) == Some("--dump-corpus") && args.len() == 3 {
+        match args[1].as_str() {
+            "C10" => props::c10::dump_corpus(&args[2]),
+            "C11" => props::c11::dump_corpus(&args[2]),
+            _ => {}
+        }
+        return;
+    }
     if args.is_empty() {
         eprintln!("usage: harness <Cxx> [--tier quick|thorough] [--replay FILE]");
         std::process::exit(2);
